@@ -102,6 +102,9 @@ func daysFromCivil(y, m, d int) int64 {
 	for yy := 1970; yy < y; yy++ {
 		n += daysInYear(yy)
 	}
+	for yy := y; yy < 1970; yy++ {
+		n -= daysInYear(yy)
+	}
 	for mm := 1; mm < m; mm++ {
 		n += daysInMonth(y, mm)
 	}
@@ -224,6 +227,8 @@ func hasACX(format string) bool {
 }
 
 const (
+	// farFmt: no year directive (how C renders years outside 1000..9999 is not pinned here)
+	farFmt   = "%A|%b|%d|%H|%I|%m|%M|%p|%S|%X|%w|%%"
 	cleanFmt = "%A|%b|%B|%d|%F|%H|%I|%m|%M|%p|%P|%S|%X|%y|%Y|%z|%Z|%w|%%"
 	acxFmt   = "%a|%c|%x"
 )
@@ -408,6 +413,28 @@ func runDate(c *fw.Ctx, h *holder) {
 			}
 		}
 		i++
+	}
+	// A2. far years: one instant per month of the astronomical years -2..2,
+	// 999/1000, 9999/10000 and a spread of years -4000..12000 (a year of -1, 0
+	// or another "special" number is a year like any other)
+	{
+		years := []int{-2, -1, 0, 1, 2, 99, 100, 999, 1000, 1582, 1899, 1900, 1901, 1969, 9999, 10000}
+		for y := -4000; y <= 12000; y += 331 {
+			years = append(years, y)
+		}
+		fi := 0
+		for _, y := range years {
+			for mth := 1; mth <= 12; mth++ {
+				t := daysFromCivil(y, mth, 1+(mth*7)%int(daysInMonth(y, mth)))*86400 + int64((mth*7919+y*13)%86400+86400)%86400
+				for k := range zones {
+					if c.Mine(fi) {
+						one("date", t, &zones[k], farFmt)
+						c.Count("date_far_year_instants", 1)
+					}
+					fi++
+				}
+			}
+		}
 	}
 	// B. every second of selected days (UTC day boundaries), every zone
 	nd := c.Pick(8, len(selectedDays))
